@@ -22,7 +22,8 @@ FirstId(line) == LET f == SelectSeq(line.calls, LAMBDA x : x.op = "fleet_ids") I
 
 CaseOf(line) ==
   LET k == line.case IN
-  [min |-> k.min, max |-> k.max, desired |-> k.desired, d |-> k.d, fleet |-> k.fleet, lifecycle |-> k.lifecycle, types |-> k.types,
+  \* preInc: an earlier, successful scale-up of preInc instances on the same provider object (then a refresh): the case starts from there
+  [min |-> k.min, max |-> k.max, desired |-> k.desired + (IF "preInc" \in DOMAIN k THEN k.preInc ELSE 0), d |-> k.d, fleet |-> k.fleet, lifecycle |-> k.lifecycle, types |-> k.types,
    subnets |-> k.subnets, tagging |-> k.tagging, never |-> k.never, tries0 |-> k.prefail, lo |-> FirstId(line),
    members |-> {"m" \o ToString(i) : i \in 1..k.nmemb}, list |-> k.list]
 PlanOf(line) ==
@@ -61,6 +62,8 @@ CheckLine(i) ==
                  (IF cs0.fleet THEN {"fleet"} ELSE {"set-desired"})
                  \cup (IF cs0.d <= 0 \/ cs0.desired + cs0.d > cs0.max THEN {"rejected"} ELSE {})
                  \cup (IF cs0.fleet /\ line.ret = "nil" THEN {"fleet-success"} ELSE {})
+                 \cup (IF cs0.fleet /\ "preInc" \in DOMAIN line.case /\ line.case.preInc > 0 /\ line.case.preInc # cs0.d
+                          /\ \E j \in 1..Len(obs) : obs[j].op = "create_fleet" THEN {"fleet-second-scale-up-other-delta"} ELSE {})
                  \cup (IF cs0.fleet /\ cs0.never THEN {"fleet-never-ready"} ELSE {})
                  \cup (IF cs0.fleet /\ cs0.never /\ "readyK" \in DOMAIN line.case /\ line.case.readyK > 0
                           /\ \E j \in 1..Len(line.calls) : line.calls[j].op = "status" THEN {"fleet-partially-ready-at-deadline"} ELSE {})
